@@ -25,9 +25,9 @@ PROPS = {
                 explanation="impl FromStr for Rational proved against an independent literal grammar (spec/lit_spec.rs): Ok(q) => q is exactly the number the byte string spells; every literal of the grammar with an exponent <= u32::MAX is accepted; unbounded loops closed by invariants; NUMBER/PERCENTAGE arms of eval() and the lexer's choice of extent are bounded-checked"),
     "C06": dict(units=["PARSER", "GRAMMAR"], standin=True, level="exploration",
                 explanation="bounded enumeration of operator sequences x parenthesisations x blank layouts against an independent precedence-climbing evaluator; proved components: op() priority table, skip bookkeeping of Parser::{count_skip,skip,eat}, operation()/value()/call_arguments() skip contracts"),
-    "C08": dict(units=["DISPLAYCORE"], standin=True, level="exploration",
-                explanation="bounded read-back contract over a grid of values x limits x exponent limits; proved core: the emit digit step is exact long division (digit <= 9, remainder stays below the denominator) and digits() is the decimal magnitude"),
-    "C11": dict(units=["POWERS", "RAT", "COMPOUND", "EVALOPS", "EVALUNIT", "EVALARMS", "LEXER", "PARSER", "GRAMMAR", "FROMSTR", "DISPLAYCORE"], standin=True, level="proof",
+    "C08": dict(units=["DISPLAYCORE", "DISPLAYFMT"], standin=True, level="proof",
+                explanation="Display::fmt (dispatch on the magnitude; the small-fraction path with its leading-zero exponent and digit budget), format_whole and format_big are proved to write exactly small_log / whole_log / big_log into the formatter log: sign, digits of long division (frac_digits) or of the numeral of the integer part, at most `limit` after the first, the mark iff the remainder after the last printed digit is non-zero (or a cut-off integer digit is) and marks are wanted, the exponent; lemma_c08_* turn the logs into the property text (the text reads back to the value cut off toward zero at the last printed digit, mark iff non-zero digits were cut off). emit (digit step) and digits() proved in DISPLAYCORE. Assumed: BigInt::to_string is the decimal numeral, std Display impls of u8 / usize / char / BigInt; the characters produced from the events and digit limit 0 for values below one are covered by the bounded read-back stand-in only"),
+    "C11": dict(units=["POWERS", "RAT", "COMPOUND", "EVALOPS", "EVALUNIT", "EVALARMS", "LEXER", "PARSER", "GRAMMAR", "FROMSTR", "DISPLAYCORE", "DISPLAYFMT"], standin=True, level="proof",
                 explanation="absence of overflow / failed assertion (former debug_assert!) / unwrap / out-of-bounds in every function under contract, under the stated bounds; error spans are token boundaries (LEXER + PARSER); eval() driver, Db::lookup, Display and the CLI are a bounded token-soup stand-in"),
     "C18": dict(units=["EVALFACT"], standin=True, level="proof",
                 frame_scan=dict(cid="evalfact.frame_scan", idents=["describe", "descriptions"], item_file="src/eval.rs", item="fn eval :: arm SENTENCE | WORD",
@@ -43,7 +43,7 @@ PROPS = {
 
 COMMON_TRUST = [
     "Verus 0.2026.09.13 + bundled Z3, rustc 1.98.1; single-file mode (no linking): every dependency type is a shim with assumed contracts",
-    "extraction rules of DESIGN.md §4: R1 attributes/doc comments stripped, visibility widened; R2 debug_assert -> static obligation; R3 break-value lowering; R4 `&a op &b` -> operator call; R5 for-desugaring; R6 outlining of iterator-adapter / fn-pointer expressions into assumed fns; R7 closure lifting; R8 nested fn hoisting; R9 trait-impl methods emitted as inherent methods / associated types spelled out; R10 type ascription; R11 fn renamed to dodge a Verus name clash; R12 match-arm guard / expression arm spelled as a block; R13 `mut` by-value parameter as an explicit local; R14 contract (ensures) written on a closure; R16 the block of a match arm of eval() lifted to a named fn over its free variables (NUMBER, PERCENTAGE arms; eval() as a whole is outside Verus); R15 `iter.all(closure)` / `values().any(closure)` replaced by the body of the default method Iterator::all / ::any with the closure body at its single call (bases_match, has_numerator); R17 `write!(w, FMT, a..)` / `writeln!` spelled as a method call `w.put<k>(FMT, newline, a..)` on a writer shim that logs the piece (lifted `Ok(value)` arm of main())",
+    "extraction rules of DESIGN.md §4: R1 attributes/doc comments stripped, visibility widened; R2 debug_assert -> static obligation; R3 break-value lowering; R4 `&a op &b` -> operator call; R5 for-desugaring; R6 outlining of iterator-adapter / fn-pointer expressions into assumed fns; R7 closure lifting; R8 nested fn hoisting; R9 trait-impl methods emitted as inherent methods / associated types spelled out; R10 type ascription; R11 fn renamed to dodge a Verus name clash; R12 match-arm guard / expression arm spelled as a block; R13 `mut` by-value parameter as an explicit local; R14 contract (ensures) written on a closure; R16 the block of a match arm of eval() lifted to a named fn over its free variables (NUMBER, PERCENTAGE arms; eval() as a whole is outside Verus); R15 `iter.all(closure)` / `values().any(closure)` replaced by the body of the default method Iterator::all / ::any with the closure body at its single call (bases_match, has_numerator); R15 also: `for d in emit(..).take(n)` as the body of Take::next inlined over the lifted closure emit_step (format_whole); R5 also `for _ in a..b` as a counting while loop; R17 `fmt::Display::fmt(x, f)` / `x.fmt(f)` spelled `f.put(x)` (generic over what the argument type shows); R17 `write!(w, FMT, a..)` / `writeln!` spelled as a method call `w.put<k>(FMT, newline, a..)` on a writer shim that logs the piece (lifted `Ok(value)` arm of main())",
     "BigRational viewed as `real`, BigInt as `int` (every operation used is closed on Q); i32/u32/usize arithmetic keeps its overflow obligations (discharged under the stated bounds, never treated as mathematical)",
 ]
 
@@ -57,6 +57,8 @@ SHIM_TRUST = {
     "shims/peekable_bytes.rs": "std Peekable<Bytes>: peek/next yield the remaining bytes in order (assume_specification); R6 outline of `number.bytes().peekable()` yields the UTF-8 bytes of the str; str_bytes is uninterpreted",
     "shims/syntree_node.rs": "syntree Node/Children as a sequence of UNode {kind, span, int, units, units_ok}; R6 outlines: str::parse::<i32> on a node's text (int), the text of a WORD node, &str -> Box<str>; UnitParser (4-line wrapper over the logos-generated generated::unit::parse) assumed to yield the node's (prefix, unit) pairs in order; Result::transpose",
     "shims/query_shim.rs": "Query::source(span) returns the query text between the span's offsets (str slicing; assumed)",
+    "shims/fmt_shim.rs": "std::fmt::Formatter as a log of events: write_char / write_str record the character / literal, `Display::fmt` of a u8 digit, of a BigInt and `write!(f, \"e{}\", exp)` record WHICH value is shown, not its characters (std / num-bigint Display impls are assumed to print the decimal numeral); a failed write leaves the log unspecified and the function returns the error",
+    "shims/numeral_shim.rs": "num-bigint: `BigInt::to_string()` of v >= 1 is a non-empty digit string without a leading zero that spells v and whose length fits usize (axiom_numeral); String::chars().peekable() replaced by a sequence-viewed iterator (next / peek / clone / count)",
     "shims/cli_out.rs": "the output stream of src/bin/any.rs as a log of pieces (format string, what each argument shows, newline): write!/writeln! become put<k> calls (R17); the characters produced by the Display impls of BigInt (num-bigint), rational::Display (C08) and compound::Display (unit names, pluralisation, exponents) are NOT modelled; a failed write leaves the log unspecified and the arm returns the error",
     "shims/syntree_span.rs": "syntree::Span<u32> as plain data; LookupError / ParseIntError / syntree::Error opaque",
 }
